@@ -493,18 +493,68 @@ def check_signing_input(chk, prog, env, model):
              n, bad, floor=3)
 
 
+def check_exact_compare(chk, prog, model, tier='quick', rulename='C01.exact-compare'):
+    """the repo's own string compare, which the path rules treat as an exact-compare primitive, is evaluated (its loop unrolled on
+    concrete operands) on a partition of operand pairs: equal; one a proper prefix of the other with the length difference at each
+    integer-width boundary (1, 255, 256, 257, 512, thorough: 65536); same length differing in the first / a middle / the last byte"""
+    n = 0
+    bad = 0
+    for fname in EXACT_COMPARE:
+        unit = None
+        for u in prog.units.values():
+            if fname in u.funcs and not u.name.startswith('tools/'):
+                unit = u.name
+        if unit is None:
+            continue            # libc's strcmp: trusted
+        deltas = [1, 2, 255, 256, 257, 512] + ([65536] if tier == 'thorough' else [])
+        pairs = []
+        for L in (0, 1, 43):
+            a = 'k' * L
+            pairs.append((a, a, True))
+            for d in deltas:
+                if d > 1000 and L:
+                    continue
+                pairs.append((a, a + 'k' * d, False))
+                pairs.append((a + 'k' * d, a, False))
+        for L in (1, 43, 300):
+            a = 'k' * L
+            for pos in sorted(set((0, L // 2, L - 1))):
+                b = a[:pos] + 'j' + a[pos + 1:]
+                pairs.append((a, b, False))
+                c = a[:pos] + chr(ord('k') + 128 - 256 if False else 0xeb) + a[pos + 1:]      # differs only in the top bit
+                pairs.append((a, c, False))
+        for x, y, eq in pairs:
+            n += 1
+            it = Interp(prog, unit, model=model, budget=8000000)
+            it.max_unroll = 70000
+            res = it.run(fname, [Str(x + '\0'), Str(y + '\0')], State())
+            vals = set(rv.v if isinstance(rv, Int) else None for s_, rv in res)
+            if None in vals or len(vals) != 1:
+                raise AnalysisBroken('%s: %s is not evaluated to one concrete result on concrete operands (%r)' % (rulename, fname, vals))
+            r = vals.pop()
+            if (r == 0) != eq:
+                bad += 1
+                what = 'equal strings compare unequal' if eq else 'different strings compare equal'
+                chk.add(Finding(rulename, unit, fname, 'inexact[len %d vs %d]' % (len(x), len(y)),
+                                '%s: %s(%d bytes, %d bytes%s) returns %d' % (what, fname, len(x), len(y),
+                                                                            '' if len(x) != len(y) else ', one byte differs', r)))
+    chk.rule(rulename, 'jwt_strcmp returns 0 exactly for equal strings on the partition: equal / proper prefix with length differences at '
+                       'the integer-width boundaries / one differing byte', n, bad, floor=40)
+
+
 def run(chk, prog, tier):
     env = Env(prog)
     model = build_model()
     chk.coverage['summaries_validated'] = summaries.validate(prog, model)
+    chk.guard('exact compare', check_exact_compare, chk, prog, model, tier)
     check_gate(chk, prog, env, model)
     check_signing_input(chk, prog, env, model)
     # clause 6: the accept event is for the pinned algorithm and a key of its kind
     c02.check_config_post(chk, prog, env, rule='C01.policy-table')
     c02.check_gate(chk, prog, env, rulename='C01.key-kind-gate')
     chk.assumptions += ['OpenSSL EVP_DigestVerify returns 1 only for a valid signature, GnuTLS gnutls_pubkey_verify_data2 >= 0 only for a valid '
-                        'signature (trusted libraries)', 'jwt_strcmp returns 0 exactly for equal strings (its loop is evaluated concretely '
-                        'only in C02\'s name tables; here it is an exact-compare primitive)',
+                        'signature (trusted libraries)', 'jwt_strcmp is an exact-compare primitive of the path rules; rule exact-compare evaluates it on a partition of '
+                        'operand pairs (not on all strings)',
                         'functional correctness of jwt_parse\'s two dot scans is not decided; only the relation between their results and '
                         'the operands of the signature check']
     return chk.finish(
